@@ -304,6 +304,10 @@ def run_json(c):
         r = _try(lambda: jwe.deserialize_json(copy.deepcopy(obj), k[1]))
         good = "ok" in r and r["ok"]["payload"] == pt and r["ok"]["header"].get("protected") == json.loads(b64d(obj["protected"])) if "protected" in obj else False
         out["dec"].append("ok" if good else r.get("error", "different"))
+        # the recipient's key given together with a kid — its header's kid, and a kid no recipient header carries (the kid sits elsewhere or nowhere)
+        for kid in (f"r{i}", "kid-not-in-any-recipient-header"):
+            r2 = _try(lambda: jwe.deserialize_json(copy.deepcopy(obj), (kid, k[1])))
+            out.setdefault("dec_kid", []).append("ok" if "ok" in r2 and r2["ok"]["payload"] == pt else r2.get("error", "different"))
         r = _try(lambda: R.decrypt_json(obj, k[3], i))
         out["ref_dec"].append("ok" if "ok" in r and r["ok"][1] == pt else r.get("error", "different"))
     # independent → authlib (key-wrapping algs; the reference puts the ephemeral key in the per-recipient header, which RFC 7516 allows)
@@ -644,6 +648,10 @@ def oracle(c, out):
         for i, r in enumerate(out["dec"]):
             if r != "ok":
                 bad(f"JSON serialization, {c['alg']} / {c['enc']}, recipient {i} of {c['nrec']}: decryption failed ({r})", kind="roundtrip", direction="json-a2a")
+        for i, r in enumerate(out.get("dec_kid", [])):
+            if r != "ok":
+                bad(f"JSON serialization, {c['alg']} / {c['enc']}, {c['nrec']} recipient(s): recipient {i // 2} cannot decrypt when its key is given with "
+                    f"{'its header kid' if i % 2 == 0 else 'a kid that no per-recipient header carries'} ({r})", kind="roundtrip", direction="json-kid")
         for i, r in enumerate(out["ref_dec"]):
             if r != "ok":
                 bad(f"JSON serialization, {c['alg']} / {c['enc']}, recipient {i}: the independent implementation cannot decrypt authlib's output ({r})", kind="roundtrip", direction="json-a2r")
